@@ -207,6 +207,7 @@ def run_async(ctx: Ctx, cfg: dict) -> dict:
     out["deliveries"] = len(relay.deliveries)
     out["selects"] = world.selects
     out["unhandled"] = vloop.collect_unhandled(loop) if status == "ok" else []
+    tlsrig.gc_tick()
     return out
 
 
